@@ -1441,8 +1441,7 @@ func (t *table) gc(now bigtable.Timestamp, done <-chan struct{}, force bool) {
 			}
 		}
 		if changed {
-			r, _ := scrubRow(r, t.cols())
-			t.rows.ReplaceOrInsert(r)
+			t.updateRow(r)
 		}
 		i++
 		if i%100 != 0 {
